@@ -172,7 +172,7 @@ func c03Variants() []stdVariant {
 func TestC03(t *testing.T) {
 	V.Rule("lab: the property's decision table {Route: none/own/own+next/next} x {To host: exact/wildcard/only default/none} x {Request-URI: name literal/regex-only/user@host/urn-tel/listener address:port/foreign} x {keep-next-hop-route on/off} x {next-hop transport udp/tcp/unsupported} enumerated cell by cell over 4 service instances started from generated YAML; each cell instantiated with rapid-generated users, ports, parameters, methods, aliases, extra headers, UDP or TCP ingress, any of the listen entries. Oracle: reference model (Route, then static route by To host, then service match, else drop); exactly one reception at the expected endpoint (any backend of the receiving listen entry for the backend outcome), nothing anywhere else after a FIFO barrier. non-trivial = >= 2 rules applicable (precedence decides) or a drop outcome; distinct by (instance, cell, message)")
 	V.Assume("loopback delivery is effectively synchronous; a scheduling hiccup can only hide an extra copy (lost sensitivity), presence waits up to 20 s")
-	V.Require("a tcp next hop that refuses connections, then accepts them", "outcome:route", "outcome:static", "outcome:backend", "outcome:drop", "precedence decides", "ingress:tcp", "unsupported transport dropped")
+	V.Require("a burst towards a tcp next hop the proxy had no connection to", "a tcp next hop that refuses connections, then accepts them", "outcome:route", "outcome:static", "outcome:backend", "outcome:drop", "precedence decides", "ingress:tcp", "unsupported transport dropped")
 	k := V.N(8, 60)
 	if V.replay {
 		k = 0
@@ -184,6 +184,69 @@ func TestC03(t *testing.T) {
 	if err != nil {
 		V.HarnessError(t, "cannot start lab instance: %v", err)
 	}
+	// a burst towards a TCP next hop the proxy has no connection to yet: every
+	// request of the burst is sent to it, whatever the state of the connection
+	// being set up when it is handled
+	rcheck(t, "burst-to-fresh-hop", V.N(8, 80), func(rt *rapid.T) {
+		s := fsvc
+		l := s.in.cfg.Listens[0]
+		ua := s.uas[rapid.IntRange(0, 3).Draw(rt, "ua")]
+		s.seq++
+		hip, hport := s.ip(26), 30000+s.seq%20000
+		hop, err := s.in.hub.tcpEP("fresh-hop-tcp", hip, hport)
+		if err != nil {
+			V.HarnessError(rt, "hop cannot listen: %v", err)
+		}
+		defer hop.goDown()
+		n := rapid.IntRange(10, 30).Draw(rt, "requests in the burst")
+		send := func(b []byte) error { return ua.sendUDP(l.Addr, l.UDPPort, b) }
+		var wires [][]byte
+		ids := map[string]int{}
+		for i := 0; i < n; i++ {
+			id := s.nextID("burst-")
+			ids[id] = 0
+			wires = append(wires, []byte(fmt.Sprintf("MESSAGE sip:x@nomatch.example SIP/2.0\r\nVia: SIP/2.0/UDP %s:5060;branch=z9hG4bK%s\r\nMax-Forwards: 70\r\nRoute: <sip:%s:%d;transport=tcp;lr>\r\nFrom: <sip:a@a.example>;tag=f\r\nTo: <sip:x@nomatch.example>\r\nCall-ID: %s\r\nCSeq: 1 MESSAGE\r\nContent-Length: 0\r\n\r\n", ua.ip, id, hip, hport, id)))
+		}
+		s.model.learnRequest(s.model.transport(0, "udp"), ua.ip, &AMsg{IsReq: true, Hdrs: []AHdr{{Kind: hVia, Vias: []AVia{{Host: ua.ip}}}}})
+		V.Journal(t.Name()+"/burst-to-fresh-hop", map[string]any{"hop": fmt.Sprintf("%s:%d", hip, hport), "requests": n})
+		s.in.expect(wires...)
+		for _, w := range wires {
+			if err := send(w); err != nil {
+				V.HarnessError(rt, "send: %v", err)
+			}
+		}
+		rs, err := s.in.settle(send, n)
+		if _, lost := err.(labLost); lost {
+			failf(rt, "%v", err)
+		} else if err != nil {
+			V.HarnessError(rt, "%v", err)
+		}
+		V.Class("a burst towards a tcp next hop the proxy had no connection to")
+		V.NonTrivial(fmt.Sprintf("burst|%d|%d", hport, n))
+		V.EvalN(n)
+		for _, r := range labMessages(rs) {
+			id, _ := r.msg.First(hCallID)
+			if _, mine := ids[id]; !mine {
+				continue
+			}
+			if r.tcp == nil || r.ep != hop {
+				failf(rt, "request %s of a burst of %d whose Route names %s:%d over TCP was delivered to %s", id, n, hip, hport, r.where())
+			}
+			ids[id]++
+		}
+		missing, twice := 0, 0
+		for _, c := range ids {
+			if c == 0 {
+				missing++
+			}
+			if c > 1 {
+				twice++
+			}
+		}
+		if missing > 0 || twice > 0 {
+			failf(rt, "a burst of %d requests, sent back to back over UDP, all with a Route naming the TCP element %s:%d (listening; the proxy had no connection to it yet): %d never arrived there, %d arrived more than once", n, hip, hport, missing, twice)
+		}
+	})
 	rcheck(t, "refusing-hop", V.N(10, 120), func(rt *rapid.T) {
 		s := fsvc
 		obs, ok, err := s.hopOutage(rt, t.Name()+"/refusing-hop", false)
